@@ -267,7 +267,10 @@ class C11(PoolCheck):
         ('strayxsi', b'>', b' xmlns:xsi="http://www.w3.org/2001/XMLSchema-instance" xsi:nil="maybe">'),
         ('strayxsitype', b'>', b' xmlns:xsi="http://www.w3.org/2001/XMLSchema-instance" xsi:type="nope:T">'),
         ('xsischemaloc', b'>', b' xmlns:xsi="http://www.w3.org/2001/XMLSchema-instance" xsi:schemaLocation="a">'),
-        ('unknownns', b'<', b'<zz:q xmlns:zz="urn:zz"/><'), ('ctrlchar', b'>', b'>&#1;'), ('bigcharref', b'>', b'>&#1114112;'),
+        ('unknownns', b'<', b'<zz:q xmlns:zz="urn:zz"/><'),
+        ('unknownns_digit', b'<', b'<q xmlns="1"><r/></q><'), ('unknownns_brace', b'<', b'<q xmlns="{x"/><'),
+        ('unknownns_braces', b'<', b'<zz:q xmlns:zz="a}b{c"><zz:r/></zz:q><'),
+        ('hint_ipv6', b'>', b' xmlns:xsi="http://www.w3.org/2001/XMLSchema-instance" xsi:schemaLocation="urn:n http://[::1">'), ('ctrlchar', b'>', b'>&#1;'), ('bigcharref', b'>', b'>&#1114112;'),
         ('nan', b'1', b'NaN'), ('inf', b'1', b'-INF'), ('exp', b'1', b'1e999999999'), ('dur', b'true', b'P99999999999999Y'),
         ('time', b'00:00:00', b'24:00:01'), ('tz', b'Z', b'+99:99'), ('leadws', b'="', b'="\t\n '),
         ('qname3', b':name', b':b:name'), ('qname3attr', b':attr', b':x:attr'), ('qnameval', b':val', b':v:val'),
